@@ -86,7 +86,7 @@ def c11(tier):
 
 
 def c14(tier):
-    family = fam(['ifcreate', 'always', 'always2', 'ifcreate_deep', 'do_recreate'])
+    family = fam(['ifcreate', 'always', 'always2', 'ifcreate_deep', 'do_recreate', 'ifcreate_link'])
     v, cov, te, wall = syscheck.run_family(
         'C14', tier, family, ['Fresh', 'NoUnderBuild', 'NoDupRun'], ['NoOverBuild'],
         {'rc', 'ran', 'file', 'edge'},
